@@ -266,6 +266,7 @@ def build_facts(dump_lines, scanned_units, other_enums, tab=None):
             rec.update({'std': ut['std'], 'dims': ut['dims'], 'n_to': ut['n_to'], 'n_from': ut['n_from']})
         ev.append(rec)
         keys = {r['name']: r for r in by.get(('UnitKeys', T), [])}
+        disp = {r['name']: r for r in by.get(('Dispatch', T), [])}
         for en in by.get(('Enumerator', T), []):
             abbr = en['abbr']
             rec = {'e': 'Enumerator', 'type': T, 'kind': kind, 'name': en['name'], 'has_abbr': abbr is not None,
@@ -287,7 +288,8 @@ def build_facts(dump_lines, scanned_units, other_enums, tab=None):
                 rec.update({'known': toks is not None, 'toks': toks or [], 'parsed': to is not None and fr is not None,
                             'to': aj(to), 'from': aj(fr),
                             'keys': all(k[x] for x in ('to_f', 'to_d', 'to_l', 'from_f', 'from_d', 'from_l')),
-                            'related': k['related'] or '#none'})
+                            'related': k['related'] or '#none',
+                            'dispatch_to': bool(disp.get(en['name'], {}).get('to_ok', False)), 'dispatch_from': bool(disp.get(en['name'], {}).get('from_ok', False))})
             elif T == 'UnitSystem':
                 toks = tab.tokenize_system(abbr) if abbr is not None else None
                 rec.update({'known': toks is not None, 'atoms': toks or []})
